@@ -228,6 +228,24 @@ def parse_loops(src):
     return names, cell_fw, face_fw
 
 
+def parse_get_string_value(src):
+    """does an element without text (GetText() == nullptr) count as missing (repaired) or reach std::string(nullptr)?"""
+    _, body = X.find_function(src, "parameter_reader::get_string_value")
+    b = _ws(body)
+    m = re.search(r"auto(\w+)=e->FirstChildElement\(XML_markup\.c_str\(\)\);if\(\1==nullptr\)returnstd::nullopt;", b)
+    if not m:
+        raise TranslateError("get_string_value: look-up / not-found test not recognised")
+    el = m.group(1)
+    rest = b[m.end():]
+    tail = r"return\(to_lower_case\)\?lower_string\(str\):str;"
+    if re.fullmatch(r"std::stringstr=" + el + r"->GetText\(\);" + tail, rest):
+        return False
+    mm = re.fullmatch(r"constchar\*(\w+)=" + el + r"->GetText\(\);if\(\1==nullptr\)returnstd::nullopt;std::stringstr=\1;" + tail, rest)
+    if mm:
+        return True
+    raise TranslateError("get_string_value: body of unrecognised shape")
+
+
 # ------------------------------------------------------------------------------------------ documentation / shipped files
 LEAF = re.compile(r"<(\w+)>([^<>]*)</\1>")
 
@@ -365,6 +383,7 @@ def extract(repo=None):
         out["tables"][table] = r["entries"]
         out["sections"][table] = r["section"]
         out["members"][table] = members
+    out["emptyIsMissing"] = parse_get_string_value(src)
     names, cfw, ffw = parse_loops(src)
     names["numerical_root"] = out["sections"]["numerical"]
     out["names"] = names
@@ -403,6 +422,8 @@ def lean_text(d):
         L.append("def %s : List Entry := [\n  %s ]\n" % (nm, ",\n  ".join(lean_entry(e) for e in d["tables"][t])))
     L.append("def paramTables : Tables :=\n  { numerical := numTable, cell := cellTable, face := faceTable,\n    cellLoopForward := %s, faceLoopForward := %s }\n"
              % ("true" if d["cellLoopForward"] else "false", "true" if d["faceLoopForward"] else "false"))
+    L.append("/-- get_string_value returns std::nullopt for an element without text (false: it constructs std::string(nullptr)) -/")
+    L.append("def emptyIsMissing : Bool := %s\n" % ("true" if d["emptyIsMissing"] else "false"))
     L.append("/-- element names used by select_section / the loops of read_biomechanical_parameters -/")
     L.append("def structureNames : List (String × String) := [%s]\n" % ", ".join("(%s, %s)" % (lstr(k), lstr(v)) for k, v in sorted(d["names"].items())))
     L.append("/-- members of the three structures that no XML tag is read into -/")
@@ -437,7 +458,7 @@ def gen_param_table():
     return {"file": "Gen/ParamTable.lean", "origin": READER, "rewritten": changed,
             "sha256": hashlib.sha256(text.encode()).hexdigest()[:16],
             "entries": {t: len(v) for t, v in d["tables"].items()},
-            "checks": sum(len(e["checks"]) for v in d["tables"].values() for e in v),
+            "checks": sum(len(e["checks"]) for v in d["tables"].values() for e in v), "emptyIsMissing": d["emptyIsMissing"],
             "wiring_rows": len(d["wiring"]), "wiring_missing": [w[:3] for w in d["wiring"] if not w[3]]}
 
 
